@@ -11,10 +11,10 @@ CHECKS = {
             "TLC exhaustive enumeration of all weighted binary vectors (Metrics.tla laws) + replay of every TLC state into fairlearn.metrics under every encoding",
             "TLC checks range / complement / class-swap laws on every vector up to the bound and emits exact rational expected values; every emitted state is executed against the seven base metrics under 10 encodings, weighted and unweighted, two row orders; scalar-ness asserted",
             "sklearn's confusion_matrix is exercised through the public functions, not trusted; vectors longer than the bound only by simulation (thorough)", "5/C14"),
-    "C02": (["Frame.tla", "Rat.tla"],
+    "C02": (["Frame.tla", "Rat.tla"],  # noqa
             "TLC exhaustive enumeration of small datasets (Frame.tla aggregate laws) + replay of every TLC state into MetricFrame, all aggregates x methods x errors",
             "TLC shows the 'hence' inequalities follow from the aggregate definitions on every dataset up to the bound and emits the exact rational value of group_min/max, difference, ratio for both methods; each state is replayed into MetricFrame (dict and callable form, weighted/unweighted, with/without control feature, canonical and shuffled row order) and every aggregate for both errors settings is compared; inequalities re-evaluated on the code's floats",
-            "8 scalar metrics; one sensitive and at most one control feature in the aggregate spec (multi-feature layouts are C01's spec)", "5/C02"),
+            "10 scalar metrics incl. a signed one (smean) and one that is NaN on non-empty groups (precn); one sensitive + at most one control feature, and the same rows read as two sensitive features (product index with NaN cells); further layouts are C01's spec", "5/C02"),
     "C03": (["Frame.tla", "Rat.tla"],
             "TLC exhaustive enumeration of all binary datasets with 1..4 groups up to the size bound + replay of every state into all named / generated fairness metrics",
             "every dataset (groups of size 1, empty denominators included) up to the bound is a TLC state carrying the exact first-principles value of DP/EOpp/EOdds x difference/ratio x method x agg and of each generated metric; every public function is called on each state with and without sample_weight",
@@ -27,10 +27,10 @@ CHECKS = {
             "TLC exhaustive enumeration of feature-tuple multisets per layout (FrameCells.tla: cells as row sets, index = product of observed values) + replay with a row-set fingerprint metric",
             "the specification defines each by_group / overall entry by the set of row positions it must be evaluated on; TLC checks partition / index-size laws and emits every state for 8 layouts (1..3 sensitive x 0..2 control features); the replay makes the code report, per cell, exactly which rows and which sliced sample-parameter rows its metric saw (y_true_i = 2^i fingerprints), compares index, names, NaN for empty combinations, and three real metrics against the metric called directly on the specified row set",
             "fingerprints exact for <= 26 rows; metric callables are scalar valued as the property states", "5/C01"),
-    "C04": (["Threshold.tla", "Rat.tla"],
+    "C04": (["Threshold.tla", "Dispatch.tla", "Rat.tla"],
             "TLC exhaustive enumeration of all Valid (group,label,score-level) multisets (Threshold.tla; p_ignore / hull laws) + ThresholdOptimizer.fit on every state x configuration, per-group expected constrained metric from _pmf_predict",
             "every dataset in which each group has both labels up to the size bound is a TLC state; TLC checks that the rule construction equalises (LawPIgnore) and that the code's hull algorithm (transcribed) equals the algorithm-free hull; each state is fitted for constraints x objectives x flip x grid sizes (plus grid_size=1000) under 4 materialisations (row order, score re-mapping) and the spread of the constrained metric over groups must be <= 1e-9",
-            "score values matter only through order/ties (levels re-mapped monotonically); prefit pass-through estimator supplies the scores", "5/C04"),
+            "score values matter only through order/ties: levels are materialised as level/(L-1), random monotone floats, nearly tied values, large magnitudes and zero-centred integers; pass-through estimator (prefit True/False alternating) with decoy predict_proba / decision_function while predict_method=predict is requested; Dispatch.tla extension reported at refinement tier", "5/C04"),
     "C05": (["Threshold.tla", "Rat.tla"],
             "TLC computes the exact optimum OptSimple/OptEO from an algorithm-independent hull definition for every state x configuration; the objective realised by the fitted ThresholdOptimizer must equal it",
             "the specification's optimum is the maximum over the grid of the group-frequency-weighted upper hull (pointwise-lowest ROC hull for equalized odds), defined as a max over exact points and straddling pairs, so it is a reference independent of the code's chain/interpolation algorithm (whose transcription TLC proves equivalent); realised objective from _pmf_predict compared at 1e-9; never below the best constant classifier; grid_size=1000 dominates coarser nested grids",
@@ -50,7 +50,7 @@ CHECKS = {
     "C08": (["Game.tla", "EG.tla", "EGTrace.tla", "Moments.tla"],
             "TLC proves the certificate => guarantees theorem on a bounded family of rational games (Game.tla) and the early-stop/selection invariants on all bounded protocols (EG.tla); real EG fits with an exact learner are checked against TLC's exact payoff tables and every recorded iteration trace is validated by TLC against EGTrace.tla",
             "for each fit: weights_ is a distribution over predictors_; the TRUE duality gap of the returned Q against the multiplier recorded for the returned iteration (min over the whole hypothesis class on the exact table) is <= best_gap_; error(Q) <= OPT + 2 best_gap_ (OPT by LP over the table) and each constraint <= bound + (1+2 best_gap_)/B when feasible; stopping before max_iter implies best_gap_ < nu; the trace (oracle results, Q_EG = Qsum/(t+1) exactly, EG/LP source by gap comparison, stop rule, last-minimum selection) is accepted by the trace spec",
-            "float64 inequalities (slack 1e-7) over exact table data; gaps as dense ranks; fits hitting the 0/0 weight normalisation (all-zero signed weights) are skipped and listed", "5/C08"),
+            "float64 inequalities (slack 1e-7) over exact table data; gaps as dense ranks; exhaustive small tables plus TLC-simulated larger ones (N<=12) for long runs without the LP step; fits hitting the 0/0 weight normalisation are skipped and listed; cost-sensitive objective at refinement tier", "5/C08"),
     "C10": (["Threshold.tla", "EG.tla", "Moments.tla"],
             "models fitted on TLC-enumerated datasets (Threshold.tla Valid states; Moments.tla payoff-table states) are queried: pmf validity, dependence on (score, group) only, monotonicity without flip, EG pmf == mixture of predictors_ by id, support/determinism over seeds; frequency clause by a fixed-seed 6-sigma test",
             "TLA+ states validity / functional dependence / id-alignment / support and determinism; every fitted ThresholdOptimizer (seeded configurations per Valid dataset) and every EG model of the C08 run is checked on scrambled query sets with duplicates; regression (BoundedGroupLoss, runs without the LP step whose weights_ index is not in id order) draws are matched to the predictors' own weights by output value",
